@@ -4789,6 +4789,14 @@ where
                         self.insertion_state.last_inserted_cell = None;
                     }
                     self.maybe_check_after_insertion()?;
+                    // Failpoint: the insertion is committed in the Tds and the post-steps ran; the
+                    // call then fails like a post-step failure (Delaunay check).
+                    #[cfg(delaunay_verif)]
+                    if crate::core::util::verif_failpoints::hit("dt.insert.after_post_steps") {
+                        return Err(InsertionError::DelaunayValidationFailed {
+                            message: "verif failpoint: dt.insert.after_post_steps".to_string(),
+                        });
+                    }
                     Ok(v_key)
                 }
                 InsertionOutcome::Skipped { error } => Err(error),
@@ -4893,6 +4901,12 @@ where
                         hint = None;
                     }
                     self.maybe_check_after_insertion()?;
+                    #[cfg(delaunay_verif)]
+                    if crate::core::util::verif_failpoints::hit("dt.insert_stats.after_post_steps") {
+                        return Err(InsertionError::DelaunayValidationFailed {
+                            message: "verif failpoint: dt.insert_stats.after_post_steps".to_string(),
+                        });
+                    }
                     InsertionOutcome::Inserted { vertex_key, hint }
                 }
                 other @ InsertionOutcome::Skipped { .. } => other,
